@@ -94,8 +94,15 @@ class StringContainsToConcat:
 
     def global_mutations(self, node, input_):
         var = node[1]
+        if not var.is_leaf() or is_piped_symbol(var) or is_string_const(var):
+            # only a simple symbol can be extended to a fresh symbol name
+            return []
         k1 = f'{var}_prefix'
         k2 = f'{var}_suffix'
+        if any(get_sort(Node(k)) is not None or is_var(Node(k))
+               for k in (k1, k2)):
+            # the names are already in use
+            return []
         vars = [
             Node('declare-const', k1, 'String'),
             Node('declare-const', k2, 'String'),
